@@ -64,7 +64,7 @@ func init() {
 		MinEvals:    floor(100000, 2000000),
 		MinDistinct: floor(20000, 300000),
 		RequiredCells: func(string) []string {
-			cells := []string{"family/a-random", "family/b-mutants", "family/c-signed-malformed", "family/d-bad-key-material", "family/e-hostile-lengths", "family/f-policy-x-data", "bomb/cbor-list", "bomb/cbor-map", "bomb/json-list", "bomb/policy-not", "bomb/signed-deep-args", "bomb/signed-deep-pol", "bomb/selector-long", "bomb/policy-nested-any-failing", "bomb/policy-nested-all-passing", "bomb/policy-nested-and-or-not", "bomb/car-zero-sections", "bomb/cbor-container-empty-entries", "bomb/json-whitespace", "bomb/json-wide-list", "bomb/selector-question-marks", "bomb/signed-wide-args", "bomb/signed-wide-pol", "car-length-sweep", "like-families", "concurrent-hostile-decoding", "rss-measured", "past-first-layer"}
+			cells := []string{"family/a-random", "family/b-mutants", "family/c-signed-malformed", "family/d-bad-key-material", "family/e-hostile-lengths", "family/f-policy-x-data", "bomb/cbor-list", "bomb/cbor-map", "bomb/json-list", "bomb/policy-not", "bomb/signed-deep-args", "bomb/signed-deep-pol", "bomb/selector-long", "bomb/policy-nested-any-failing", "bomb/policy-nested-all-passing", "bomb/policy-nested-and-or-not", "bomb/car-zero-sections", "bomb/cbor-container-empty-entries", "bomb/json-whitespace", "bomb/json-wide-list", "bomb/selector-question-marks", "bomb/signed-wide-args", "bomb/signed-wide-pol", "car-length-sweep", "like-families", "selector/quoted-names", "concurrent-hostile-decoding", "rss-measured", "past-first-layer"}
 			for _, e := range []string{"token.FromSealed", "token.FromDagJson", "delegation.FromSealed", "invocation.FromSealed", "container.FromCbor", "container.FromCar", "container.FromCborBase64", "container.FromCarBase64", "policy.FromDagJson", "policy.FromIPLD", "Policy.Match", "selector.Parse", "Selector.Select", "did.Parse", "DID.PubKey", "args.Add", "literal.Any"} {
 				cells = append(cells, "entry/"+e)
 			}
@@ -512,6 +512,37 @@ func c09Bulk(w *mon.W, part, parts int) {
 		default:
 			c.call("policy.FromDagJson", "random", b, func() { _, _ = policy.FromDagJson(string(b)) })
 		}
+	}
+
+	// quoted field names: every body of up to 4 characters over the characters that matter to a
+	// tokenizer (quote, backslash, brackets, dot, a letter), closed, unclosed and followed by
+	// more, alone and through a policy
+	{
+		alpha := []byte{'"', '\\', 'a', ']', '[', '.'}
+		idx := 0
+		var rec func(body []byte)
+		rec = func(body []byte) {
+			for _, form := range []string{`.["%s"]`, `.["%s`, `.["%s"].b`, `.a["%s"]?`} {
+				idx++
+				if idx%parts != part {
+					continue
+				}
+				txt := fmt.Sprintf(form, body)
+				c.selectorEntries("quoted-names", txt, data[:2])
+				if len(body) >= 3 && idx%7 == 0 {
+					pv := ref.V{K: ref.KList, L: []ref.V{ref.List(ref.Str("=="), ref.Str(txt), ref.Int(1))}}
+					c.policyNodeEntries("quoted-names", pv, data[:1], []byte(txt))
+				}
+			}
+			if len(body) == 4 {
+				return
+			}
+			for _, ch := range alpha {
+				rec(append(append([]byte{}, body...), ch))
+			}
+		}
+		rec(nil)
+		w.Cover("selector/quoted-names")
 	}
 
 	// selectors with slices / indexes of every size class against the whole data corpus
